@@ -64,7 +64,11 @@ impl Cube {
     /// Obtain the minterm for a value of the variables
     pub fn minterm(num_vars: usize, mask: usize) -> Cube {
         let m = mask as u32;
-        let tot = (1 << num_vars) - 1;
+        let tot = if num_vars >= 32 {
+            !0
+        } else {
+            (1 << num_vars) - 1
+        };
         Cube {
             pos: m & tot,
             neg: !m & tot,
